@@ -359,7 +359,11 @@ func (p *FinalPool) submit(q *FinalQuery, text string) {
 			p.mu.Unlock()
 		}
 		if doCross {
-			cv, _, cerr := runZ3File(z3Cross, q.File, p.capS)
+			cc := p.capS
+			if cc > 20 {
+				cc = 20 // the second opinion is bounded: an unknown from it does not change the verdict
+			}
+			cv, _, cerr := runZ3File(z3Cross, q.File, cc)
 			if cerr {
 				cv = "unknown"
 			}
